@@ -26,10 +26,12 @@ BUDGET_S = {"quick": 22, "thorough": 500}
 FLOORS = {
     "quick": {"evaluations": 4000, "distinct": 500,
               "counters": {"entry_compares": 4000, "asyncified_compares": 500,
-                           "cls_Native": 100, "cls_Sandboxed": 100, "cls_Immutable": 100}},
+                           "cls_Native": 100, "cls_Sandboxed": 100, "cls_Immutable": 100,
+                           "async_filter_programs": 100}},
     "thorough": {"evaluations": 80000, "distinct": 8000,
                  "counters": {"entry_compares": 80000, "asyncified_compares": 10000,
-                              "cls_Native": 2000, "cls_Sandboxed": 2000, "cls_Immutable": 2000}},
+                              "cls_Native": 2000, "cls_Sandboxed": 2000, "cls_Immutable": 2000,
+                              "async_filter_programs": 2000}},
 }
 
 
@@ -85,6 +87,11 @@ def asyncify(case, data):
     elif k == "loop":
         out["seq"] = agen_of(list(data["seq"]))
         n += 1
+    elif k == "afilter":
+        # every use of these names is the input of a filter with an async variant
+        for name in ("recs", "nums", "words"):
+            out[name] = agen_of(list(data[name]))
+            n += 1
     return out, n
 
 
@@ -157,8 +164,10 @@ def run(ctx):
     names = list(env_classes())
     i = 0
     while ctx.more(i, n, floor=60):
-        case = corpus.gen_case(rng)
+        case = corpus.gen_case(rng, kinds=("expr", "stmt", "inherit", "incimp", "loop", "afilter", "afilter"))
         clsname = names[i % len(names)]
+        if case["kind"] == "afilter":
+            ctx.count("async_filter_programs")
         if clsname == "Native" and case["kind"] in ("incimp",):
             clsname = "Environment"   # native module/str concat of includes is C34 territory
         check_case(ctx, case, clsname)
